@@ -9,6 +9,7 @@ import (
 	"sort"
 	"strings"
 	"sync"
+	"sync/atomic"
 
 	"golang.org/x/tools/go/packages"
 	"golang.org/x/tools/go/ssa"
@@ -235,6 +236,12 @@ func (p *Program) runPath(opt *Options, s *Solver, fn *ssa.Function, prefix []De
 			extra = And(ex.defs...)
 		}
 		r, m := ex.S.Check(ex.pc, extra, want)
+		if r == Sat && len(ex.modelToInputs(m)) < len(ex.inputs) {
+			// the solver's get-value answer did not cover every input (seen under heavy load):
+			// no usable model, this path is simply not part of the validation sample
+			atomic.AddInt64(&GStats.IncompleteModels, 1)
+			r = Unknown
+		}
 		if r == Sat {
 			res.Model = ex.modelToInputs(m)
 			res.Observed = map[string]string{}
